@@ -196,14 +196,17 @@ class Sim:
 
     def __init__(self, chooser, machine, config_files=("config.yaml",), platform="virtual",
                  patches=None, defaults=None, mock_data=None, data_manager_factory=None,
-                 pre_boot=None, start_time=0.0, bcp=False, production=False, mode_patches=None):
+                 pre_boot=None, start_time=0.0, bcp=False, production=False, mode_patches=None,
+                 unit_test=True):
         self.ch = chooser
         self.loop = SimLoop(chooser, start_time=start_time)
         asyncio.set_event_loop(self.loop)
         self.crash = None
         self.loop.set_exception_handler(self._exception_handler)
         self.clock = SimClock(self.loop)
-        LogMixin.unit_test = True
+        # unit_test=True mimics the test suite (info logging on, some code paths re-raise instead of warn);
+        # unit_test=False is what a real machine runs
+        LogMixin.unit_test = unit_test
         logging.basicConfig(level=99)
         logging.disable(logging.CRITICAL)
 
